@@ -72,9 +72,11 @@ def gen_cfg(r, i):
     cfg = {"seed": int(r.integers(1, 100000)), "dims": int(r.choice([1, 2])), "n_samples": int(r.choice([8, 12])), "kernel_steps": 2,
            "every": int(r.choice([1, 1, 2, 3, 4])), "like_width": float(r.choice([0.3, 0.6])),
            "route": str(r.choice(["path", "auto", "auto"])), "pre_existing": bool(i % 4 == 3),
-           "auto_pre": str(r.choice(["none", "fit", "importance"])),
+           "auto_pre": ["none", "fit", "importance", "refit", "none", "refit"][i % 6],
            # how the interruption arrives: an ordinary exception or a KeyboardInterrupt (Ctrl-C / SIGINT)
            "fault_kind": "interrupt" if i % 3 == 1 else "exception"}
+    if cfg["auto_pre"] == "refit":
+        cfg["route"] = "auto"
     m = i % 5
     if m == 1:
         cfg["n_final_samples"] = int(cfg["n_samples"] // 2)       # the forced final payload holds a smaller population
@@ -93,7 +95,7 @@ def one_run(cfg, path, fault_at=None, fault_prior_at=None, log=None):
     target.fault_exc = smcrun.FaultInterrupt if cfg.get("fault_kind") == "interrupt" else smcrun.Fault
     a = al.make_aspire(target, dims=cfg["dims"], flow_seed=cfg["seed"] % 1000)
     pre = cfg.get("auto_pre", "none") if cfg["route"] == "auto" else "none"
-    if pre != "fit":
+    if pre not in ("fit", "refit"):
         a.fit(al.training_samples(cfg["dims"], cfg["seed"]))
     kw = al.smc_kwargs(cfg)
     out = {"target": target, "aspire": a}
@@ -104,6 +106,19 @@ def one_run(cfg, path, fault_at=None, fault_prior_at=None, log=None):
                     # earlier steps inside the same context (multi-step use of one checkpoint file)
                     if pre == "fit":
                         a.fit(al.training_samples(cfg["dims"], cfg["seed"]))
+                    elif pre == "refit":
+                        # a whole earlier cycle in the same context: fit, a finished SMC run, then a REFIT on other data
+                        fa, fp = target.fault_at, target.fault_prior_at
+                        target.fault_at = target.fault_prior_at = None
+                        a.fit(al.training_samples(cfg["dims"], cfg["seed"] + 1, center=0.4, spread=1.3))
+                        n_l, n_p = target.n_like, target.n_prior
+                        a.sample_posterior(**kw)
+                        if log:                      # checkpoints of the earlier run are not checkpoints of the run under test
+                            out["pre_payload"] = log[-1]["bytes"]
+                            del log[:]
+                        a.fit(al.training_samples(cfg["dims"], cfg["seed"]))
+                        target.fault_at = None if fa is None else fa + (target.n_like - n_l)
+                        target.fault_prior_at = None if fp is None else fp + (target.n_prior - n_p)
                     elif pre == "importance":
                         fa, fp = target.fault_at, target.fault_prior_at
                         target.fault_at = target.fault_prior_at = None
@@ -187,7 +202,7 @@ def check_cfg(chk, cfg, all_faults=True):
             sig = {"level": "run", "route": cfg["route"], "pre_existing": cfg["pre_existing"]}
             if not summ.get("has_config") or not summ.get("has_flow"):
                 chk.fail("file contains the configuration and the proposal", case, f"groups present: {summ.get('groups')}", {**sig, "clause": "header"})
-            last = log[-1]["bytes"] if log else pre
+            last = log[-1]["bytes"] if log else (r1.get("pre_payload") or pre)
             fb = summ.get("ckpt_bytes")
             if last is None:
                 if fb is not None:
@@ -220,6 +235,24 @@ def check_cfg(chk, cfg, all_faults=True):
                 a2 = Aspire.resume_from_file(p, log_likelihood=t2.log_likelihood, log_prior=t2.log_prior)
                 kw = al.smc_kwargs(cfg)
                 kw.pop("sampler")
+                if k % 3 == 0:
+                    # the resumed run is interrupted as well (no new context is opened on the resumed object), then resumed again:
+                    # after EVERY interruption the file must still hold configuration, proposal and a loadable current payload
+                    chk.count("second_interruption")
+                    t2.fault_at = 2
+                    try:
+                        with al.orng_seed(cfg["seed"]):
+                            a2.sample_posterior(return_history=True, **kw)
+                        interrupted_again = False
+                    except smcrun.FAULTS:
+                        interrupted_again = True
+                    if interrupted_again:
+                        summ2 = al.file_summary(p)
+                        if not summ2.get("has_config") or not summ2.get("has_flow") or summ2.get("ckpt_bytes") is None:
+                            chk.fail("file contains the configuration and the proposal", dict(case, second_interruption=True),
+                                     f"after the resumed run was interrupted again: groups present: {summ2.get('groups')}", {**sig, "clause": "header2"})
+                        t2 = smcrun.Target(cfg["dims"], width=cfg["like_width"])
+                        a2 = Aspire.resume_from_file(p, log_likelihood=t2.log_likelihood, log_prior=t2.log_prior)
                 with al.orng_seed(cfg["seed"]):
                     s2, h2 = a2.sample_posterior(return_history=True, **kw)
                 R2 = al.result_record(s2, h2)
